@@ -3,11 +3,11 @@ LEVEL = "model_checking"
 TECHNIQUE = "CBMC bounded symbolic execution of evdns.c request_parse on a symbolic datagram (name_parse by its C33-verified contract, response formatting cut), vs an RFC 1035/6891 reference walk"
 UNITS = ["evdns.c"]
 FUNCTIONS = ["request_parse", "evdns_server_request_add_reply", "server_request_free", "evdns_server_request_drop"]
-BOUNDS = ("every UDP datagram of <= 28 (quick) / 36 (thorough) octets in an exact-size object, name_parse replaced by its C33-verified contract with decoded "
+BOUNDS = ("every UDP datagram of <= 28 (quick) / 44 (thorough) octets in an exact-size object, name_parse replaced by its C33-verified contract with decoded "
           "names <= 4 / 6 octets, optional solver-chosen allocation failures; counts in the header unrestricted.")
 OUT = ("TCP length-prefix framing (tcp_read_message, server_tcp_read_packet_cb: their bodies are cut because cbmc resolves port->user_callback to them by "
        "signature); response formatting/sending (evdns_server_request_respond is a recorder: C35); records after the first OPT are not examined by evdns and "
-       "not by the check; QDCOUNT=0 packets are dropped (zero-size allocation) - accepted as is; datagrams > 36 octets.")
+       "not by the check; QDCOUNT=0 packets are dropped (zero-size allocation) - accepted as is; datagrams > 44 octets.")
 TEXT = ("request_parse on a symbolic datagram against an RFC 1035/6891 reference walk sharing the name oracle: no out-of-bounds access, at most one "
         "callback/response, callback only for QR=0 opcode-0 packets whose questions and walked records are complete, delivered questions (name, type, class), id, "
         "RD/CD flags and reply size limit max(512, OPT class) as in the packet, OPT echo record iff OPT present, well-formed standard queries are delivered, other "
@@ -44,7 +44,7 @@ def rp(name, L, T=4, extra=(), **kw):
 
 LEN = ["C37_LENIENT_RDATA", "C37_LENIENT_AFTER_OPT"]
 def obligations(tier):
-    L, T = (28, 4) if tier == "quick" else (36, 6)
+    L, T = (28, 4) if tier == "quick" else (44, 6)
     kw = {} if tier == "quick" else dict(timeout=2400, mem_gb=10)
     return [rp("parse_wf_L%d" % L, L, T, extra=["C37_KF_EXCLUDE_OPCODE"] + LEN, **kw),
             rp("parse_opcode_L%d" % L, L, T, extra=LEN, **kw),
